@@ -21,6 +21,7 @@ import (
 	authtypes "github.com/cosmos/cosmos-sdk/x/auth/types"
 	distrtypes "github.com/cosmos/cosmos-sdk/x/distribution/types"
 	govtypes "github.com/cosmos/cosmos-sdk/x/gov/types"
+	govv1 "github.com/cosmos/cosmos-sdk/x/gov/types/v1"
 	transfertypes "github.com/cosmos/ibc-go/v8/modules/apps/transfer/types"
 	clienttypes "github.com/cosmos/ibc-go/v8/modules/core/02-client/types"
 	channeltypes "github.com/cosmos/ibc-go/v8/modules/core/04-channel/types"
@@ -481,6 +482,39 @@ func (h *coreH) exec(line string) string {
 		}
 		_, err := h.f.Deliver(&msg)
 		return h.msgClass(err)
+	case "punish":
+		// the standalone governance PunishSequencerProposal, delivered the way an executed proposal
+		// delivers it: x/gov's MsgExecLegacyContent -> legacy router -> x/sequencer's proposal handler
+		_, a := h.actor(f[1])
+		auth := h.gov
+		if m["auth"] != "gov" {
+			_, x := h.actor(m["auth"])
+			auth = x.String()
+		}
+		content := &seqtypes.PunishSequencerProposal{Title: "t", Description: "d", PunishSequencerAddress: a.String()}
+		if m["rewardee"] != "-" {
+			_, rw := h.actor(m["rewardee"])
+			content.Rewardee = rw.String()
+		}
+		any, err := codectypes.NewAnyWithValue(content)
+		if err != nil {
+			return "bad-op"
+		}
+		_, err = h.f.Deliver(&govv1.MsgExecLegacyContent{Content: any, Authority: auth})
+		// x/gov flattens the handler's error into the text of ErrInvalidProposalContent (%+v): the
+		// bank's refusal of the recipient is recognised by the bank's own text for that recipient
+		if err != nil && !IsPanic(err) {
+			for _, ref := range h.blockedErr {
+				txt := ref.Error()
+				if i := strings.LastIndex(txt, ": "); i > 0 {
+					txt = txt[:i]
+				}
+				if strings.Contains(err.Error(), txt) {
+					return "blockedRecipient"
+				}
+			}
+		}
+		return okErr(err)
 	case "obsolete":
 		auth := h.gov
 		if m["auth"] != "gov" {
